@@ -82,6 +82,10 @@ static void db_add(struct dynbuf *b, const char *s, const size_t n)
     b->p[b->n] = '\0';
 }
 
+#ifdef CIMX_COV
+extern void __gcov_dump(void);
+#endif
+
 /* Run one case in a forked child; the whole answer is appended to out */
 static void run_case(char *text, struct dynbuf *out)
 {
@@ -98,6 +102,9 @@ static void run_case(char *text, struct dynbuf *out)
         close(ep[1]);
         const int r = run_child(text, tp[1]);
         fflush(NULL);
+#ifdef CIMX_COV
+        __gcov_dump();
+#endif
         _exit(r);
     }
     close(tp[1]); close(ep[1]);
